@@ -3,7 +3,7 @@
    Spec.v (renamed, related, local_iso, redirects_ok, streams_ok). *)
 From Coq Require Import List NArith ZArith Bool.
 From GoPdf.Base Require Import Res.
-From GoPdf.C11 Require Import Copier Checker Spec CopierLemmas CopierProofs CheckerProofs TotalProofs Refuted ModelPaths PreFix StreamCrypt StreamCryptProofs.
+From GoPdf.C11 Require Import Copier Checker Spec CopierLemmas CopierProofs CheckerProofs TotalProofs Refuted ModelPaths PreFix StreamCrypt StreamCryptProofs History HistoryProofs.
 Import ListNotations.
 
 (* ---- the model copier, for all source graphs and all call sequences -------- *)
@@ -202,26 +202,46 @@ Theorem copy_stream_exempt :
 Proof. exact StreamCryptProofs.copy_stream_exempt. Qed.
 Print Assumptions copy_stream_exempt.
 
-(* For every source cipher sk, target cipher tk (None: unencrypted), target
-   version, and exemption: the bytes a reader of the target obtains for the
-   copied stream (after decryption, and after the remaining filters) are those
-   a reader of the source obtains.  Ciphers: any enc/dec with dec (enc x) = x;
-   the remaining filters: any function of the inlined /Filter and /DecodeParms
-   that does not depend on object numbers. *)
+(* For every source cipher sk, target cipher tk (None: unencrypted), every set of
+   references exempt BY IDENTITY in the source and in the target (the catalog's
+   metadata stream under /EncryptMetadata false - never a stream that merely
+   looks like one: d is arbitrary), target version, and /Crypt exemption: the
+   bytes a reader of the target obtains for the copied stream (after decryption,
+   and after the remaining filters) are those a reader of the source obtains.
+   Ciphers: any enc/dec with dec (enc x) = x; the remaining filters: any
+   function of the inlined /Filter and /DecodeParms that does not depend on
+   object numbers. *)
 Theorem copy_stream_bytes :
   forall (key : Type) (enc dec : key -> ref -> list N -> list N),
     (forall k r x, dec k r (enc k r x) = x) ->
   forall unfilter : obj -> obj -> list N -> list N,
     (forall g tr f f' q q' x, renamed g tr f f' -> renamed g tr q q' -> unfilter f' q' x = unfilter f q x) ->
-  forall g gt tr sk tk ver s t d n d3 disk data disk' x h,
+  forall g gt tr sk tk splain tplain ver s t d n d3 disk data disk' x h,
     renamed g tr (OStream d n) (OStream d3 n) ->
     head_is_crypt g (dget K_Filter d) = Ok h ->
-    copy_data key dec g sk s d disk = Ok data ->
-    write_data key enc ver tk gt t d3 data = Ok disk' ->
-    decoded_src key dec unfilter g sk s d disk = Ok x ->
-    decoded_tgt key dec unfilter gt tk t d3 disk' = Ok x.
+    copy_data key dec g sk splain s d disk = Ok data ->
+    write_data key enc ver tk tplain gt t d3 data = Ok disk' ->
+    decoded_src key dec unfilter g sk splain s d disk = Ok x ->
+    decoded_tgt key dec unfilter gt tk tplain t d3 disk' = Ok x.
 Proof. exact StreamCryptProofs.copy_stream_bytes. Qed.
 Print Assumptions copy_stream_bytes.
+
+(* ---- copied values are independent of later copier activity (History.v) ------- *)
+
+(* In every history of copier calls and deferred Puts - Copy a value, do
+   anything else with the copier, Put the value later (or let the Writer defer
+   the Put while a stream is open) - what is written is the renamed argument of
+   the call that produced it (for a stream: the renamed dictionary and the
+   source's data), or a reference to an object the caller wrote itself. *)
+Theorem hist_values :
+  forall src fuel ops next0 h,
+    run_hist src fuel ops (hinit next0) = Ok h ->
+    forallb is_copy_op ops = true ->
+    forall t v, In (t, v) (hputs h) ->
+      (exists c, In (HCall c) ops /\ renamed src (trans (hst h)) (call_obj c) v) \/
+      (exists t', v = ORef t' /\ In t' (map fst (hputs h))).
+Proof. exact HistoryProofs.hist_values. Qed.
+Print Assumptions hist_values.
 
 (* ---- the hypotheses are satisfiable ----------------------------------------- *)
 
@@ -286,8 +306,9 @@ Definition ex_cg : source := [(8, Good (OScalar 3 K_Crypt))]%N.
 Definition ex_cd : dict := [(K_Filter, OArr [ORef 8%N; OScalar 3%N [70%N]])].
 Example ex_crypt_decisions :
   head_is_crypt ex_cg (dget K_Filter ex_cd) = Ok true /\
-  copy_data N ex_dec ex_cg (Some 1%N) 5%N ex_cd [7; 7]%N = Ok [7; 7]%N /\
-  write_data N ex_enc 14%N (Some 2%N) [] 9%N [(K_Filter, OArr [OScalar 3%N K_Crypt; OScalar 3%N [70%N]])] [7; 7]%N = Ok [7; 7]%N /\
-  copy_data N ex_dec ex_cg (Some 1%N) 5%N [] [1; 7; 7]%N = Ok [7; 7]%N /\
-  write_data N ex_enc 14%N (Some 2%N) [] 9%N [] [7; 7]%N = Ok [2; 7; 7]%N.
+  copy_data N ex_dec ex_cg (Some 1%N) [] 5%N ex_cd [7; 7]%N = Ok [7; 7]%N /\
+  write_data N ex_enc 14%N (Some 2%N) [] [] 9%N [(K_Filter, OArr [OScalar 3%N K_Crypt; OScalar 3%N [70%N]])] [7; 7]%N = Ok [7; 7]%N /\
+  copy_data N ex_dec ex_cg (Some 1%N) [] 5%N [] [1; 7; 7]%N = Ok [7; 7]%N /\
+  copy_data N ex_dec ex_cg (Some 1%N) [5%N] 5%N [] [1; 7; 7]%N = Ok [1; 7; 7]%N /\
+  write_data N ex_enc 14%N (Some 2%N) [] [] 9%N [] [7; 7]%N = Ok [2; 7; 7]%N.
 Proof. vm_compute. repeat split. Qed.
